@@ -517,6 +517,76 @@ theorem caps_row_sound (ms : List (List Nat)) :
   simp only [MSlice.totalSpare, MSlice.hasSpare, List.map_map, List.any_map]
   refine ⟨?_, ?_, ?_, ?_⟩ <;> first | rfl | (congr 1)
 
+theorem clamp_clampLens (rs : List Region) (l : Nat) :
+    (clamp rs l).map (·.len) = clampLens (rs.map (·.len)) l := by
+  induction rs generalizing l with
+  | nil => rfl
+  | cons r rs ih =>
+    simp only [clamp, List.map_cons, clampLens]
+    split
+    · simp only [List.map_cons, ih]
+    · simp only [List.map_cons, ih]
+
+/-- The `lcaps` line of the protocol is the model: the numbers it prints for an
+array / tuple of empty vectors under a `LimitedBuf` are the model's
+`as_iovecs_mut` lengths, `total_spare_capacity` and `has_spare_capacity` of
+`MSlice.limited (.arr …) limit` — for capacities of any size (gigabytes). -/
+theorem lcaps_row_sound (ms : List (List Nat)) (limit : Nat) :
+    let bs : List MBuf := ms.map fun m => MBuf.vec ⟨0, m, 0⟩
+    let caps := ms.map List.length
+    let spares := caps.map (fun c => asU32 (c - 0))
+    ((MSlice.limited (.arr bs) limit).iovecsMut.map (·.len)) = clampLens spares limit ∧
+    (MSlice.limited (.arr bs) limit).totalSpare = asU32 (min (sumSatU32 spares) limit) ∧
+    (MSlice.limited (.arr bs) limit).hasSpare =
+      (limit != 0 && caps.any (fun c => decide (c > 0))) := by
+  intro bs caps spares
+  have h := caps_row_sound ms
+  simp only at h
+  refine ⟨?_, ?_, ?_⟩
+  · simp only [MSlice.iovecsMut]
+    rw [clamp_clampLens]
+    have h2 : (MSlice.arr bs).iovecsMut.map (·.len) = spares := by
+      have := h.2.1
+      show List.map (·.len) (List.map (·.partsMut) (ms.map fun m => MBuf.vec ⟨0, m, 0⟩)) =
+        (ms.map List.length).map (fun c => asU32 (c - 0))
+      rw [List.map_map]
+      exact this
+    exact congrArg (fun x => clampLens x limit) h2
+  · simp only [MSlice.totalSpare]
+    have h3 := h.2.2.1
+    simp only [MSlice.totalSpare] at h3
+    rw [h3]
+  · simp only [MSlice.hasSpare]
+    have h4 := h.2.2.2
+    simp only [MSlice.hasSpare] at h4
+    rw [h4]
+
+/-- **A `LimitedBuf` over buffers of any size never exposes more than its limit**
+and cuts nothing off while the limit allows it: the lengths are the buffers'
+own lengths until the limit is used up, then what is left of it, then 0 —
+whatever the sizes (also when the sum of the spare capacities exceeds 2^32,
+where `total_spare_capacity` saturates). -/
+theorem C14_limit_clamp_lens (ns : List Nat) (l : Nat) :
+    (clampLens ns l).sum = min ns.sum l ∧ (clampLens ns l).length = ns.length ∧
+    (ns.sum ≤ l → clampLens ns l = ns) := by
+  induction ns generalizing l with
+  | nil => simp [clampLens]
+  | cons n ns ih =>
+    simp only [clampLens]
+    split
+    · rename_i hle
+      have := ih (l - n)
+      refine ⟨by simp only [List.sum_cons, this.1]; omega, by simp [this.2.1], ?_⟩
+      intro hs
+      simp only [List.sum_cons] at hs
+      rw [this.2.2 (by omega)]
+    · rename_i hgt
+      have h0 := ih 0
+      refine ⟨by simp only [List.sum_cons, h0.1]; omega, by simp [h0.2.1], ?_⟩
+      intro hs
+      simp only [List.sum_cons] at hs
+      omega
+
 /-! ### C14_set_init: marking `n` bytes initialised appends exactly those bytes -/
 
 theorem MBuf.leaf_setInit (b : MBuf) (n : Nat) :
